@@ -77,6 +77,8 @@ def _seed_store(run):
     fi = anchor_func(run, BACKWARD)
     stores = [n for n in own_nodes(fi.node) if isinstance(n, ast.Assign) and any(norm(t) == "self._grad" for t in n.targets)
               and not is_none_value(n.value)]
+    if len(stores) == 1 and isinstance(stores[0].value, ast.Call):
+        return fi, stores[0]
     if len(stores) != 1 or not isinstance(stores[0].value, ast.Name):
         # the seed is written in several steps: judge the ordering directly
         cfg = build_cfg(run, fi, switch_assumptions(fi, track=True, extra={"self.constant": False, "grad is not None": True}))
@@ -95,29 +97,69 @@ def _like_self_data(v: ast.AST) -> bool:
         and v.args and norm(v.args[0]) == "self.data"
 
 
+def _renamed_receiver(helper: FunctionInfo, recv: str) -> FunctionInfo:
+    """a module-level helper `f(tensor, grad)`: analyse a copy in which the receiver parameter is spelled `self`"""
+    import copy
+
+    class Ren(ast.NodeTransformer):
+        def visit_Name(self, n):
+            return ast.copy_location(ast.Name(id="self", ctx=n.ctx), n) if n.id == recv else n
+
+        def visit_arg(self, n):
+            if n.arg == recv:
+                n.arg = "self"
+            return n
+
+    node = Ren().visit(copy.deepcopy(helper.node))
+    ast.fix_missing_locations(node)
+    for p_ in ast.walk(node):
+        for ch in ast.iter_child_nodes(p_):
+            ch._parent = p_
+    node._parent = getattr(helper.node, "_parent", None)
+    h2 = copy.copy(helper)
+    h2.node = node
+    return h2
+
+
 def r14_2(run):
     fi, st = _seed_store(run)
     if st is None:
         return
-    g = st.value.id
+    g = st.value.id if isinstance(st.value, ast.Name) else None
     gradp = "grad"
     cfg = build_cfg(run, fi, switch_assumptions(fi, track=True, extra={"self.constant": False}))
     ns = cfg.node_for(st)
-    # the seed construction may live in a helper method: follow  <g> = self.<helper>(grad)  and judge the helper's returns
-    defs_ = reaching_defs(cfg, g, ns)
-    vals_ = [getattr(cfg.stmt[d], "value", None) for d in defs_ if d != ENTRY]
-    if len(vals_) == 1 and isinstance(vals_[0], ast.Call) and isinstance(vals_[0].func, ast.Attribute) and norm(vals_[0].func.value) == "self":
-        helper = facts(run).resolve_call(fi, vals_[0])
-        if isinstance(helper, FunctionInfo) and helper.cls is not None:
+    # the seed construction may live in a helper: follow  <g> = self.<helper>(grad) / <helper>(self, grad)  (also stored directly) and judge its returns
+    if g is None:
+        vals_ = [st.value]
+    else:
+        defs_ = reaching_defs(cfg, g, ns)
+        vals_ = [getattr(cfg.stmt[d], "value", None) for d in defs_ if d != ENTRY]
+    followed = False
+    if len(vals_) == 1 and isinstance(vals_[0], ast.Call):
+        call = vals_[0]
+        helper = facts(run).resolve_call(fi, call)
+        if isinstance(helper, FunctionInfo):
+            hargs = [a.arg for a in helper.node.args.args]
+            if isinstance(call.func, ast.Attribute) and norm(call.func.value) == "self" and helper.cls is not None:
+                recv, hp, passed = hargs[0], hargs[1:], [norm(a) for a in call.args]
+            elif isinstance(call.func, ast.Name) and call.args and norm(call.args[0]) == "self":
+                recv, hp, passed = hargs[0], hargs[1:], [norm(a) for a in call.args[1:]]
+            else:
+                recv = None
             rets = [r for r in own_nodes(helper.node) if isinstance(r, ast.Return) and isinstance(r.value, ast.Name)]
-            hp = [a.arg for a in helper.node.args.args][1:]
-            passed = [norm(a) for a in vals_[0].args]
-            if len(rets) == 1 and "grad" in passed and passed.index("grad") < len(hp):
+            if recv is not None and len(rets) == 1 and "grad" in passed and passed.index("grad") < len(hp):
                 run.ob("R14.2", loc(fi, st), fi.short, f"seed built by helper {helper.short}, stored after it returns", True,
                        "the helper call is the only reaching definition of the stored seed")
+                if recv != "self":
+                    helper = _renamed_receiver(helper, recv)
+                    rets = [r for r in own_nodes(helper.node) if isinstance(r, ast.Return) and isinstance(r.value, ast.Name)]
                 fi, st, g, gradp = helper, rets[0], rets[0].value.id, hp[passed.index("grad")]
                 cfg = build_cfg(run, fi, {})
                 ns = cfg.node_for(st)
+                followed = True
+    if g is None and not followed:
+        raise AnalysisError(f"{fi.short}: the stored seed is a call that could not be followed")
     # (1) dtype: every reaching definition is *_like(self.data) or carries dtype=self.dtype
     defs = reaching_defs(cfg, g, ns)
     for d in defs:
